@@ -23,20 +23,23 @@ CONSTANTS Threads,    \* set of thread ids (naturals)
           Reqs,       \* requests per thread
           OwnChoices, \* set of possible values of own (each a set of <<thread, request number>> pairs)
           FailChoices,\* set of possible values of failing (requests that fail after taking a number)
+          RejectChoices, \* set of possible values of rejected
           Start       \* value of the counter at the beginning (0 for a new connection; a connection that has
                       \* already served Start requests otherwise)
 
 VARIABLES counter, holder, pc, nxt, tmp, done, sent,
           own,        \* the requests that carry a caller supplied id (fixed during a behaviour)
           failing,    \* the requests that fail between taking a number and reaching the opener (fixed)
-          lost        \* numbers handed out to requests that failed
-vars == <<counter, holder, pc, nxt, tmp, done, sent, own, failing, lost>>
+          lost,       \* numbers handed out to requests that failed
+          rejected    \* the requests that are refused before anything happens (bad arguments): they take no number (fixed)
+vars == <<counter, holder, pc, nxt, tmp, done, sent, own, failing, lost, rejected>>
 OwnId == own
 Free == 0
 
 (* standard choices used by the model checking configurations *)
 OwnChoicesStd == { {}, { <<1, 1>> }, { <<1, 2>>, <<2, 1>> } }
 FailChoicesStd == { {}, { <<1, 1>> }, { <<2, 1>> } }
+RejectChoicesStd == { {}, { <<2, 2>> } }
 
 Init == /\ counter = Start /\ holder = Free
         /\ pc = [t \in Threads |-> "check"]
@@ -45,39 +48,45 @@ Init == /\ counter = Start /\ holder = Free
         /\ sent = <<>>                      \* sequence of [t, own, n]
         /\ own \in OwnChoices
         /\ failing \in { f \in FailChoices : f \cap own = {} } /\ lost = {}
+        /\ rejected \in { r \in RejectChoices : r \cap own = {} /\ r \cap failing = {} }
 
 Cur(t) == done[t] + 1
-Check(t) == /\ pc[t] = "check" /\ done[t] < Reqs
+Check(t) == /\ pc[t] = "check" /\ done[t] < Reqs /\ <<t, Cur(t)>> \notin rejected
             /\ pc' = [pc EXCEPT ![t] = IF <<t, Cur(t)>> \in OwnId THEN "send" ELSE "acquire"]
-            /\ UNCHANGED <<counter, holder, nxt, tmp, done, sent, own, failing, lost>>
+            /\ UNCHANGED <<counter, holder, nxt, tmp, done, sent, own, failing, lost, rejected>>
 Acquire(t) == /\ pc[t] = "acquire" /\ holder = Free
               /\ holder' = t /\ pc' = [pc EXCEPT ![t] = "readid"]
-              /\ UNCHANGED <<counter, nxt, tmp, done, sent, own, failing, lost>>
+              /\ UNCHANGED <<counter, nxt, tmp, done, sent, own, failing, lost, rejected>>
 ReadForId(t) == /\ pc[t] = "readid"
                 /\ nxt' = [nxt EXCEPT ![t] = counter] /\ pc' = [pc EXCEPT ![t] = "readinc"]
-                /\ UNCHANGED <<counter, holder, tmp, done, sent, own, failing, lost>>
+                /\ UNCHANGED <<counter, holder, tmp, done, sent, own, failing, lost, rejected>>
 ReadForInc(t) == /\ pc[t] = "readinc"
                  /\ tmp' = [tmp EXCEPT ![t] = counter] /\ pc' = [pc EXCEPT ![t] = "write"]
-                 /\ UNCHANGED <<counter, holder, nxt, done, sent, own, failing, lost>>
+                 /\ UNCHANGED <<counter, holder, nxt, done, sent, own, failing, lost, rejected>>
 WriteInc(t) == /\ pc[t] = "write"
                /\ counter' = tmp[t] + 1 /\ pc' = [pc EXCEPT ![t] = "release"]
-               /\ UNCHANGED <<holder, nxt, tmp, done, sent, own, failing, lost>>
+               /\ UNCHANGED <<holder, nxt, tmp, done, sent, own, failing, lost, rejected>>
 Release(t) == /\ pc[t] = "release" /\ holder = t
               /\ holder' = Free /\ pc' = [pc EXCEPT ![t] = "send"]
-              /\ UNCHANGED <<counter, nxt, tmp, done, sent, own, failing, lost>>
+              /\ UNCHANGED <<counter, nxt, tmp, done, sent, own, failing, lost, rejected>>
 Send(t) == /\ pc[t] = "send" /\ <<t, Cur(t)>> \notin failing
            /\ sent' = Append(sent, [t |-> t, own |-> <<t, Cur(t)>> \in OwnId, n |-> nxt[t]])
            /\ done' = [done EXCEPT ![t] = @ + 1]
            /\ pc' = [pc EXCEPT ![t] = "check"]
-           /\ UNCHANGED <<counter, holder, nxt, tmp, own, failing, lost>>
+           /\ UNCHANGED <<counter, holder, nxt, tmp, own, failing, lost, rejected>>
 
 Fail(t) == /\ pc[t] = "send" /\ <<t, Cur(t)>> \in failing
            /\ lost' = lost \cup {nxt[t]}
            /\ done' = [done EXCEPT ![t] = @ + 1]
            /\ pc' = [pc EXCEPT ![t] = "check"]
-           /\ UNCHANGED <<counter, holder, nxt, tmp, sent, own, failing>>
+           /\ UNCHANGED <<counter, holder, nxt, tmp, sent, own, failing, rejected>>
 
-Step(t) == Fail(t) \/ Check(t) \/ Acquire(t) \/ ReadForId(t) \/ ReadForInc(t) \/ WriteInc(t) \/ Release(t) \/ Send(t)
+(* a request with unusable arguments is refused before an id is generated: nothing is consumed *)
+Reject(t) == /\ pc[t] = "check" /\ done[t] < Reqs /\ <<t, Cur(t)>> \in rejected
+             /\ done' = [done EXCEPT ![t] = @ + 1]
+             /\ UNCHANGED <<counter, holder, pc, nxt, tmp, sent, own, failing, lost, rejected>>
+
+Step(t) == Reject(t) \/ Fail(t) \/ Check(t) \/ Acquire(t) \/ ReadForId(t) \/ ReadForInc(t) \/ WriteInc(t) \/ Release(t) \/ Send(t)
 Next == \E t \in Threads : Step(t)
 Spec == Init /\ [][Next]_vars /\ \A t \in Threads : WF_vars(Step(t))
 
